@@ -89,6 +89,18 @@ fn main() {
             let n = |i: usize, d: u64| args.get(i).and_then(|a| a.parse::<u64>().ok()).unwrap_or(d);
             props::c17::storm_main(n(2, 0), n(3, 2), n(4, 40) as u32)
         }
+        | Some("fmtprobe") => {
+            // zv fmtprobe <file> : format with default options; print the output and both desugared terms (development aid)
+            let text = std::fs::read_to_string(args.get(2).map(|s| s.as_str()).unwrap_or("")).unwrap_or_default();
+            match e2::format(&text) {
+                | Ok(Ok(out)) => {
+                    println!("--- output\n{out}--- desugared input\n{:?}\n--- desugared output\n{:?}", e2::desugared(&text).map_err(|p| p.short()), e2::desugared(&out).map_err(|p| p.short()));
+                    println!("--- C13 compare: {:?}", props::c13::compare(&text, &out));
+                }
+                | other => println!("formatter: {:?}", other.map_err(|p| p.short())),
+            }
+            0
+        }
         | Some("list") => {
             for def in props::all() {
                 println!("{} {}", def.id, def.title);
